@@ -15,7 +15,7 @@ from .explorer import Space
 
 class ParaSpace(Space):
     def __init__(self, prop, name, alphabet, maxn, oracle, ctxs, sepnames=("sp", "nl"), widths=None, modes=(False, True),
-                 full_upto=2, reps=None, lead="", floors=None, extra_widths=(0, 1, 88), valid=None, max_special_seps=None):
+                 full_upto=2, reps=None, lead="", floors=None, extra_widths=(0, 1, 88), valid=None, max_special_seps=None, trail=""):
         """alphabet: list of tokens, simplest first (index 0 must be a plain short word).
         maxn: maximal number of tokens.  Up to `full_upto` tokens the full alphabet is used, above it
         only the class representatives `reps` (indices).  widths=None -> critical widths of the case.
@@ -27,6 +27,7 @@ class ParaSpace(Space):
         self.sepnames, self.fixed_widths, self.modes = sepnames, widths, modes
         self.full_upto, self.reps = full_upto, (reps if reps is not None else list(range(len(alphabet))))
         self.lead = lead
+        self.trail = trail  # text after the last token (e.g. " |\n|---|" to close a one-cell table)
         self.floors = floors or {}
         self.extra_widths = extra_widths
         self.valid = valid or (lambda toks, seps: True)
@@ -37,7 +38,7 @@ class ParaSpace(Space):
         return [self.alphabet[k] for k in ks]
 
     def para(self, ks, seps):
-        return self.lead + docspace.join_tokens(self.tokens(ks), seps)
+        return self.lead + docspace.join_tokens(self.tokens(ks), seps) + self.trail
 
     def text(self, case):
         ci, ks, seps, width, sem = case
